@@ -20,6 +20,7 @@ package fence
 import (
 	"context"
 	"database/sql"
+	"errors"
 	"fmt"
 
 	"seata.apache.org/seata-go/pkg/rm/tcc/fence/enum"
@@ -30,6 +31,10 @@ import (
 // WithFence Execute the fence database operation first and then call back the business method
 func WithFence(ctx context.Context, tx *sql.Tx, callback func() error) (err error) {
 	if err = DoFence(ctx, tx); err != nil {
+		if errors.Is(err, handler.ErrSkipBusiness) {
+			// duplicate delivery or empty rollback: nothing to do for the business method
+			return nil
+		}
 		return err
 	}
 
